@@ -337,6 +337,69 @@ fn cmd_compile(src: &str) -> String {
     }
 }
 
+/// compile with the REAL compiler, print its bytes and constants, then run them on the REAL machine with the
+/// lockstep trace: `<outcome> # steps= halt= gc= hash= ## x<bytes> | <constants>`
+fn cmd_runtrace(budget: u64, src: &str) -> String {
+    verif::heap_reset();
+    let ast = match parse(src) {
+        Ok(a) => a,
+        Err(e) => return err_kind(&e),
+    };
+    let mut compiler = Compiler::new();
+    let code = match compiler.compile_ast(&ast) {
+        Ok(c) => c,
+        Err(e) => return err_kind(&e),
+    };
+    let consts: Vec<String> = code.constants.iter().map(|c| const_canon(*c)).collect();
+    let bytes = format!("{} | {}", hex(&code.instructions), consts.join(" "));
+    verif::capture_start();
+    verif::set_budget(Some(budget));
+    verif::trace_start(true);
+    let r = VM::new().run(code);
+    verif::set_budget(None);
+    let output = verif::capture_take();
+    let mut line = match &r {
+        Ok(obj) => {
+            let mut s = String::from("ok ");
+            let mut path = Vec::new();
+            canon(*obj, &mut path, &mut s);
+            s
+        }
+        Err(e) => err_kind(e),
+    };
+    let plain_error = matches!(
+        &r,
+        Err(Error::TypeError(_))
+            | Err(Error::SyntaxError(_))
+            | Err(Error::ReferenceError(_))
+            | Err(Error::IndexError(_))
+            | Err(Error::ArgumentError(_))
+    );
+    if r.is_ok() || plain_error {
+        line.push_str(" | ");
+        line.push_str(&hex(output.as_bytes()));
+    }
+    if let Ok(obj) = r {
+        free_graph(obj);
+    }
+    let t = verif::trace_take();
+    let h = verif::heap_stats();
+    let gcs: Vec<String> = t.gc_runs.iter().map(|(s, f)| format!("{}/{}", s, f)).collect();
+    line.push_str(&format!(
+        " # steps={} halt={} gc={}:{} hash={} live={} dfree={} uaf={} ## {}",
+        t.steps,
+        t.halt_stack,
+        gcs.len(),
+        gcs.join(","),
+        t.step_hash,
+        h.live,
+        h.double_free,
+        h.use_after_free,
+        bytes
+    ));
+    line
+}
+
 /// `eval` with output capture, instruction budget and heap audit
 fn run_eval(budget: u64, src: &str, extended: bool) -> String {
     verif::heap_reset();
@@ -375,12 +438,13 @@ fn run_eval(budget: u64, src: &str, extended: bool) -> String {
         let h = verif::heap_stats();
         let gcs: Vec<String> = t.gc_runs.iter().map(|(s, f)| format!("{}/{}", s, f)).collect();
         line.push_str(&format!(
-            " # steps={} halt={} gc={}:{} live={} dfree={} uaf={} loopdrift={}",
+            " # steps={} halt={} gc={}:{} live={} hash={} dfree={} uaf={} loopdrift={}",
             t.steps,
             t.halt_stack,
             gcs.len(),
             gcs.join(","),
             h.live,
+            t.step_hash,
             h.double_free,
             h.use_after_free,
             t.loop_drift
@@ -507,6 +571,10 @@ fn handle(line: &str) -> String {
         },
         ["evalx", b, h] => match (b.parse::<u64>(), unhex(h)) {
             (Ok(b), Some(t)) => run_eval(b, &t, true),
+            _ => "bad-hex".into(),
+        },
+        ["runtrace", b, h] => match (b.parse::<u64>(), unhex(h)) {
+            (Ok(b), Some(t)) => cmd_runtrace(b, &t),
             _ => "bad-hex".into(),
         },
         ["session", b, rest @ ..] => {
